@@ -243,17 +243,18 @@ pub fn grid(path: &str, out_dir: &str) -> Result<Value, String> {
                 if printed != a1 {
                     rep.mismatch("C22", "a1-print", "to_localized_string", c.clone(), format!("got {printed}"));
                 }
-                rep.n_checks += 1;
+                // R1C1: the text the engine prints must parse back to the same reference (the property
+                // does not fix the spelling, e.g. R[0]C[0] vs RC), and the spec's spelling must parse
+                // to the same reference as well
                 let rc = to_rc_format(&node);
-                if rc != r1c1 {
-                    rep.mismatch("C22", "r1c1-print", "to_rc_format", c.clone(), format!("got {rc}"));
-                }
-                rep.n_checks += 1;
-                let mut p2 = Parser::new(vec!["Sheet1".to_string()], vec![], std::collections::HashMap::new(), locale, language);
-                p2.set_lexer_mode(LexerMode::R1C1);
-                let back = p2.parse(&r1c1, &ctx);
-                if back != node {
-                    rep.mismatch("C22", "r1c1-parse", "Parser::parse(R1C1)", c.clone(), format!("got {:?}", decode(&back)));
+                for (label, text) in [("r1c1-print-parse", rc.as_str()), ("r1c1-spec-text-parse", r1c1.as_str())] {
+                    rep.n_checks += 1;
+                    let mut p2 = Parser::new(vec!["Sheet1".to_string()], vec![], std::collections::HashMap::new(), locale, language);
+                    p2.set_lexer_mode(LexerMode::R1C1);
+                    let back = p2.parse(text, &ctx);
+                    if back != node {
+                        rep.mismatch("C22", label, "Parser::parse(R1C1)", c.clone(), format!("text {text} parsed to {:?}", decode(&back)));
+                    }
                 }
                 rep.nontrivial.insert(format!("ref-{abs_r}-{abs_c}-{}", if row > hr { "below" } else if row < hr { "above" } else { "same" }));
                 if rep.samples.len() < 2 {
@@ -307,4 +308,166 @@ pub fn grid(path: &str, out_dir: &str) -> Result<Value, String> {
     let mut v = rep.finish();
     v["invalid_names_skipped"] = json!(invalid_names);
     Ok(v)
+}
+
+// ------------------------------------------------------------------------------------------
+// C23 function / error names: the tables live in the implementation; every forward and inverse
+// lookup is recorded as one event and validated by TLC against Lang.tla.
+
+pub fn langdump(out_dir: &str) -> Result<Value, String> {
+    use ironcalc_base::expressions::parser::{Node, Parser};
+    use ironcalc_base::expressions::token::{get_error_by_english_name, get_error_by_name, Error};
+    use ironcalc_base::expressions::types::CellReferenceRC;
+    use ironcalc_base::Function;
+    std::fs::create_dir_all(out_dir).map_err(|e| e.to_string())?;
+    let mut out = std::io::BufWriter::new(std::fs::File::create(format!("{}/lang.ndjson", out_dir)).map_err(|e| e.to_string())?);
+    let langs = ["en", "es", "fr", "de", "it"];
+    let fns: Vec<Function> = Function::into_iter().collect();
+    let index_of = |f: &Function| -> i64 { fns.iter().position(|g| g == f).map(|i| i as i64 + 1).unwrap_or(0) };
+    let locale = ironcalc_base::locale::get_locale("en").map_err(|_| "no locale".to_string())?;
+    let ctx = CellReferenceRC { sheet: "Sheet1".to_string(), row: 1, column: 1 };
+    let mut n = 0usize;
+    for (i, f) in fns.iter().enumerate() {
+        let mut names = serde_json::Map::new();
+        let mut back = serde_json::Map::new();
+        for l in langs {
+            let language = ironcalc_base::language::get_language(l).map_err(|_| "no language".to_string())?;
+            let name = f.to_localized_name(language);
+            let mut p = Parser::new(vec!["Sheet1".to_string()], vec![], std::collections::HashMap::new(), locale, language);
+            // LAMBDA has its own node kind (it needs a parameter list and a body)
+            let is_lambda = matches!(f, Function::Lambda);
+            let node = if is_lambda { p.parse(&format!("{}(x,x)", name), &ctx) } else { p.parse(&format!("{}()", name), &ctx) };
+            let b = match node {
+                Node::FunctionKind { kind, .. } => index_of(&kind),
+                Node::LambdaDefKind { .. } if is_lambda => index_of(f),
+                _ => 0,
+            };
+            names.insert(l.to_string(), json!(name));
+            back.insert(l.to_string(), json!(b));
+        }
+        let xlsx = f.to_xlsx_string();
+        let english = ironcalc_base::language::get_language("en").map_err(|_| "no language".to_string())?;
+        let mut p = Parser::new(vec!["Sheet1".to_string()], vec![], std::collections::HashMap::new(), locale, english);
+        let is_lambda = matches!(f, Function::Lambda);
+        let xb = match if is_lambda { p.parse(&format!("{}(_xlpm.x,_xlpm.x)", xlsx), &ctx) } else { p.parse(&format!("{}()", xlsx), &ctx) } {
+            Node::FunctionKind { kind, .. } => index_of(&kind),
+            Node::LambdaDefKind { .. } if is_lambda => index_of(f),
+            _ => 0,
+        };
+        writeln!(out, "{}", json!({"ev": "fn", "id": i + 1, "names": names, "back": back, "xlsx": xlsx, "xlsx_back": xb})).ok();
+        n += 1;
+    }
+    let errs = [Error::REF, Error::NAME, Error::VALUE, Error::DIV, Error::NA, Error::NUM, Error::ERROR, Error::NIMPL, Error::SPILL, Error::CALC, Error::CIRC, Error::NULL];
+    let eidx = |e: &Error| -> i64 { errs.iter().position(|g| g == e).map(|i| i as i64 + 1).unwrap_or(0) };
+    for (i, e) in errs.iter().enumerate() {
+        let mut names = serde_json::Map::new();
+        let mut back = serde_json::Map::new();
+        let mut parsed = serde_json::Map::new();
+        for l in langs {
+            let language = ironcalc_base::language::get_language(l).map_err(|_| "no language".to_string())?;
+            let name = e.to_localized_error_string(language);
+            back.insert(l.to_string(), json!(get_error_by_name(&name, language).map(|x| eidx(&x)).unwrap_or(0)));
+            let mut p = Parser::new(vec!["Sheet1".to_string()], vec![], std::collections::HashMap::new(), locale, language);
+            let pb = match p.parse(&name, &ctx) {
+                Node::ErrorKind(x) => eidx(&x),
+                _ => 0,
+            };
+            parsed.insert(l.to_string(), json!(pb));
+            names.insert(l.to_string(), json!(name));
+        }
+        let display = format!("{}", e);
+        let xb = get_error_by_english_name(&display).map(|x| eidx(&x)).unwrap_or(0);
+        writeln!(out, "{}", json!({"ev": "err", "id": i + 1, "names": names, "back": back, "parsed": parsed, "xlsx": display, "xlsx_back": xb})).ok();
+        n += 1;
+    }
+    out.flush().ok();
+    Ok(json!({"events": n, "functions": fns.len(), "errors": errs.len(), "languages": langs.len()}))
+}
+
+// ------------------------------------------------------------------------------------------
+// C34 F4 cycling: {text, a, b, accepted: [texts], touched, maybe, one4, all4}
+
+pub fn f4(path: &str, out_dir: &str) -> Result<Value, String> {
+    let mut rep = Report::new(out_dir)?;
+    let model = Model::new_empty("b", "en", "UTC", "en")?;
+    let f = std::fs::File::open(path).map_err(|e| e.to_string())?;
+    for line in std::io::BufReader::new(f).lines() {
+        let line = line.map_err(|e| e.to_string())?;
+        let c: Value = match serde_json::from_str(&line) {
+            Ok(v) => v,
+            Err(_) => continue,
+        };
+        rep.n_cases += 1;
+        let text = join(&c["text"]);
+        let (a, b) = (c["a"].as_u64().unwrap_or(0) as usize, c["b"].as_u64().unwrap_or(0) as usize);
+        let accepted: Vec<String> = c["accepted"].as_array().map(|x| x.iter().map(join).collect()).unwrap_or_default();
+        let small = json!({"text": text, "a": a, "b": b});
+        let touched = c["touched"].as_u64().unwrap_or(0);
+        let maybe = c["maybe"].as_u64().unwrap_or(0);
+        for (sa, sb) in [(a, b), (b, a)] {
+            rep.n_checks += 1;
+            let r = std::panic::catch_unwind(std::panic::AssertUnwindSafe(|| model.cycle_reference(&text, sa, sb)));
+            match r {
+                Ok(Ok((out, ns, ne))) => {
+                    if !accepted.contains(&out) {
+                        let why = if touched == 0 && maybe == 0 { "untouched-formula-changed" } else { "cycle-result" };
+                        rep.mismatch("C34", why, "cycle_reference", small.clone(), format!("got {out} accepted {:?}", accepted));
+                    }
+                    let n = out.chars().count() as i32;
+                    if ns < 0 || ne < 0 || ns > n || ne > n {
+                        rep.mismatch("C34", "cursor-out-of-bounds", "cycle_reference", small.clone(), format!("cursor ({ns},{ne}) text length {n}"));
+                    }
+                }
+                Ok(Err(e)) => rep.mismatch("C34", "cycle-error", "cycle_reference", small.clone(), e),
+                Err(_) => rep.mismatch("PANIC", "panic", "cycle_reference", small.clone(), "panic".into()),
+            }
+            if sa == sb {
+                break;
+            }
+        }
+        // period four with the cursor the engine returns, when exactly one reference is touched
+        if touched == 1 && maybe == 0 && a == b {
+            rep.n_checks += 1;
+            let want = join(&c["one4"]);
+            let mut t = text.clone();
+            let (mut s, mut e) = (a, b);
+            let mut ok = true;
+            for _ in 0..4 {
+                match model.cycle_reference(&t, s, e) {
+                    Ok((o, ns, ne)) => {
+                        t = o;
+                        s = ns.max(0) as usize;
+                        e = ne.max(0) as usize;
+                    }
+                    Err(_) => {
+                        ok = false;
+                        break;
+                    }
+                }
+            }
+            if !ok || t != want {
+                rep.mismatch("C34", "period-four", "cycle_reference x4", small.clone(), format!("got {t} want {want}"));
+            }
+            rep.nontrivial.insert(format!("{}", text));
+        }
+        // period four over the whole formula
+        if a == 0 && b == text.chars().count() {
+            rep.n_checks += 1;
+            let want = join(&c["all4"]);
+            let mut t = text.clone();
+            for _ in 0..4 {
+                let n = t.chars().count();
+                if let Ok((o, _, _)) = model.cycle_reference(&t, 0, n) {
+                    t = o;
+                }
+            }
+            if t != want {
+                rep.mismatch("C34", "period-four", "cycle_reference x4 (whole formula)", small.clone(), format!("got {t} want {want}"));
+            }
+        }
+        if rep.samples.len() < 3 && touched > 0 {
+            rep.samples.push(json!({"text": text, "a": a, "b": b, "accepted": accepted}));
+        }
+    }
+    Ok(rep.finish())
 }
